@@ -24,6 +24,8 @@ THEOREMS = {
                             "MsPack.TableObligations.zip_lit_extrabits", "MsPack.TableObligations.zip_dist_offsets",
                             "MsPack.TableObligations.zip_dist_extrabits", "MsPack.TableObligations.zip_bitlen_order",
                             "MsPack.TableObligations.lsb_bit_mask", "MsPack.TableObligations.cab_layout"],
+            "Proofs.Props.C01Mszip": ["MsPack.Zip.C01_mszip_stored_roundtrip", "MsPack.Zip.C01_mszip_fixed_roundtrip", "MsPack.Zip.C01_mszip_blocks_roundtrip",
+                                      "MsPack.Zip.C01_mszip_blocks_roundtrip_src", "MsPack.Zip.C01_mszip_blocks_roundtrip_chunked"]
 }
 ASSUMPTIONS = ["decoder round trips (MSZIP/LZX/Quantum bit level) are not theorems yet: covered by model/implementation agreement and by the plan oracle",
                "Quantum's arithmetic coder has no independent specification: the generator's encoder inverts qtmd.c",
@@ -100,8 +102,57 @@ def judge_spec(ctx, meta, impl, model):
         if pi != pm: fs.append(Finding("mismatch", f"model and implementation differ on a spec-encoded cabinet: {str(pi)[:150]} vs {str(pm)[:150]}"))
     return fs
 
+def spec_deflate_cases(ctx):
+    """the MSZIP *specification writer* of the C01_mszip_* round-trip theorems (Lean `Deflate.encFrame`, run by the driver as
+    `prim encdeflate`) against the real mszipd: random lists of stored and fixed-Huffman blocks (literals, matches of every
+    length class and distance class incl. overlapping ones) -> frame bytes in a one-block MSZIP folder -> extract() must
+    return OK with exactly the data the specification assigns to the block list"""
+    import subprocess, tempfile
+    rng = ctx.rng
+    n = 40 if ctx.tier == "quick" else 800
+    reqs = []
+    for _ in range(n):
+        blocks = []; out = 0
+        for _b in range(rng.choice([1, 1, 2, 3, 5])):
+            if out >= 30000: break
+            if rng.random() < 0.4:
+                k = rng.choice([0, 1, 5, 300, 2000]); k = min(k, 32768 - out)
+                blocks.append("S" + (bytes(rng.randrange(256) for _ in range(k)).hex() or "=")); out += k
+            else:
+                toks = []
+                for _t in range(rng.choice([0, 1, 8, 60, 400])):
+                    if out >= 32000: break
+                    if out == 0 or rng.random() < 0.6:
+                        toks.append("L%02x" % rng.randrange(256)); out += 1
+                    else:
+                        ln = rng.choice([3, 4, 10, 11, 12, 13, 18, 19, 34, 35, 130, 257, 258, rng.randint(3, 258)]); ln = min(ln, 32768 - out)
+                        if ln < 3: continue
+                        d = rng.choice([1, 2, 3, 4, 5, 7, 9, 24, 33, 257, 1025, 4097, 16385, out, rng.randint(1, out)]); d = min(d, out)
+                        toks.append("M%d:%d" % (ln, d)); out += ln
+                blocks.append("F" + ",".join(toks))
+        if out == 0: blocks.append("S41"); out = 1
+        reqs.append(blocks)
+    with tempfile.NamedTemporaryFile("w", suffix=".case", dir=C.BUILD, delete=False) as tf:
+        tf.write("\n".join("prim encdeflate " + " ".join(b) for b in reqs) + "\n"); tp = tf.name
+    try:
+        out = [l for l in subprocess.run([C.DRIVER, tp], capture_output=True, text=True).stdout.splitlines() if l.startswith("prim encdeflate")]
+    finally:
+        os.unlink(tp)
+    if len(out) != len(reqs) or any("bad-args" in l for l in out):
+        C.log(f"C01: driver answered {len(out)} of {len(reqs)} prim encdeflate requests"); return
+    from lib import minicab
+    for l in out:
+        _, _, fh, dh = l.split(" ")
+        frame = bytes.fromhex(fh); data = b"" if dh in ("=", "-") else bytes.fromhex(dh)
+        if not data or len(data) > 32768: continue
+        cab, _ = minicab.build([(1, [(frame, len(data))])], [dict(name=b"s.bin", length=len(data), offset=0, folder=0)])
+        buf = rng.choice(BUFS)
+        yield [f"file x.cab {cab.hex()}", "new cab", f"param i0 DECOMPBUF {buf}", "open i0 x.cab", "extract i0 h0 0 o0", "close i0 h0", "destroy i0"], \
+              dict(family="mszip.cross-block", label="spec-encoded frame", want=digest(data), buf=buf, fix=0, nontrivial=True)
+
 def generate(ctx):
     yield from spec_header_cases(ctx)
+    yield from spec_deflate_cases(ctx)
     yield from mszip_cross_block(ctx)
     yield from plan_cases(ctx)
 
